@@ -10,7 +10,7 @@ def main():
     rows = []
     for d in sorted(glob.glob(os.path.join(VERIF, 'seeded', '*'))):
         sid = os.path.basename(d)
-        if sel and not any(s in sid for s in sel): continue
+        if sel and sid not in sel and not any(s.endswith('*') and sid.startswith(s[:-1]) for s in sel): continue
         meta = json.load(open(d + '/meta.json'))
         t = tempfile.mkdtemp(prefix='msm_seed_')
         try:
